@@ -26,11 +26,26 @@ def load_known_findings():
         return {"findings": [], "fixed": []}
 
 
+def match_finding(findings, m):
+    """the known finding a mismatch (dict) falls under, or None: same property and every
+    tag the finding lists has the same value in the mismatch"""
+    tags = m.get("tags") or {}
+    for f in findings:
+        if f["property"] != m["property"]:
+            continue
+        if all(str(tags.get(k)) == str(v) for k, v in f["tags"].items()):
+            return f
+    return None
+
+
 class Mismatch:
     """One disagreement between the library and the spec."""
 
-    def __init__(self, prop_id, signature, what, detail, severity="violation"):
+    def __init__(self, prop_id, signature, what, detail, severity="violation", tags=None):
         self.prop_id = prop_id
+        self.tags = dict(tags or {})
+        if tags:
+            signature = "|".join("%s=%s" % (k, self.tags[k]) for k in sorted(self.tags))
         self.signature = signature  # structural signature used for known-findings
         self.what = what
         self.detail = detail
@@ -38,7 +53,7 @@ class Mismatch:
 
     def to_dict(self):
         return {"property": self.prop_id, "signature": self.signature, "what": self.what,
-                "detail": self.detail, "severity": self.severity}
+                "detail": self.detail, "severity": self.severity, "tags": self.tags}
 
 
 def _job_worker(job):
@@ -77,7 +92,8 @@ def _job_worker(job):
                 out["features"][f] = out["features"].get(f, 0) + 1
             for m in res["mismatches"]:
                 if len(out["mismatches"]) < 40:
-                    out["mismatches"].append({"mismatch": m.to_dict(), "record": rec})
+                    out["mismatches"].append({"mismatch": m.to_dict(), "record": rec,
+                                              "job": _job_essentials(job)})
                 else:
                     out["mismatches_dropped"] = out.get("mismatches_dropped", 0) + 1
             if len(out["samples"]) < 2 and res.get("nontrivial"):
@@ -96,6 +112,36 @@ def _job_worker(job):
         run.close()
     out["wall_s"] = time.time() - t0
     return out
+
+
+def _job_essentials(job):
+    return {k: v for k, v in job.items() if k not in ("defs", "cfg")}
+
+
+def replay_file(prop_id, path, props=None):
+    """re-run exactly the recorded state through the replayer"""
+    import importlib
+    with open(path) as f:
+        doc = json.load(f)
+    job = doc["job"]
+    mod = importlib.import_module(job["replayer"][0])
+    res = getattr(mod, job["replayer"][1])(job, doc["record"])
+    known = load_known_findings()
+    findings = known.get("findings", [])
+    bad = 0
+    for m in res["mismatches"]:
+        d = m.to_dict()
+        if d["severity"] == "drift":
+            print("DRIFT property=%s %s :: %s" % (prop_id, d["signature"], d["what"]))
+        elif match_finding(findings, d) is not None:
+            print("KNOWN-FINDING: property=%s %s" % (prop_id, d["what"]))
+        else:
+            bad += 1
+            print("VIOLATION property=%s replay=%s" % (prop_id, path))
+            print("  %s :: %s" % (d["signature"], d["what"]))
+    if not bad:
+        print("replay of %s: property %s holds on the recorded case" % (path, prop_id))
+    return 1 if bad else 0
 
 
 def _trim(rec, limit=1500):
@@ -138,7 +184,7 @@ def finish(prop_id, tier, seed, level, results, t0, rule, assumptions, feature_f
            extra_coverage=None, replay_dir=None):
     """Aggregate job results, print verdict lines, write evidence; return exit code."""
     known = load_known_findings()
-    known_sigs = {(f["property"], f["signature"]): f for f in known.get("findings", [])}
+    findings = known.get("findings", [])
     states = sum(r["tlc_distinct"] or r["distinct"] for r in results)
     transitions = sum(r["generated"] for r in results)
     replayed = sum(r["distinct"] for r in results)
@@ -153,6 +199,7 @@ def finish(prop_id, tier, seed, level, results, t0, rule, assumptions, feature_f
     violations = 0
     drifts = 0
     known_hit = {}
+    known_what = {}
     replay_dir = replay_dir or os.path.join(VERIF, "replays", prop_id)
     printed = set()
     for r in results:
@@ -167,8 +214,11 @@ def finish(prop_id, tier, seed, level, results, t0, rule, assumptions, feature_f
                     print("DRIFT property=%s %s :: %s" % (prop_id, m["signature"], m["what"]))
                     printed.add(key)
                 continue
-            if key in known_sigs:
-                known_hit[key] = known_hit.get(key, 0) + 1
+            kf = match_finding(findings, m)
+            if kf is not None:
+                kkey = (kf["property"], kf["id"])
+                known_hit[kkey] = known_hit.get(kkey, 0) + 1
+                known_what[kkey] = kf["what"]
                 continue
             violations += 1
             if key in printed:
@@ -178,13 +228,13 @@ def finish(prop_id, tier, seed, level, results, t0, rule, assumptions, feature_f
             h = hashlib.sha1(json.dumps(mm, sort_keys=True).encode()).hexdigest()[:12]
             path = os.path.join(replay_dir, h + ".json")
             with open(path, "w") as f:
-                json.dump({"property": prop_id, "job_scn": r["scn"], "mismatch": m,
+                json.dump({"property": prop_id, "job": mm["job"], "mismatch": m,
                            "record": mm["record"]}, f)
             print("VIOLATION property=%s replay=%s" % (prop_id, path))
             print("  %s :: %s" % (m["signature"], m["what"]))
     for key, cnt in sorted(known_hit.items()):
         print("KNOWN-FINDING: property=%s %s (%s; seen %d times)" %
-              (key[0], known_sigs[key]["what"], key[1], cnt))
+              (key[0], known_what[key], key[1], cnt))
     missing_features = [f for f in feature_floor if features.get(f, 0) == 0]
     coverage = {
         "states": states, "transitions": transitions,
